@@ -6,9 +6,9 @@ case = (protocol family, transport, failure point (+ exception kind), listener l
 Every case builds a fresh application: a base service class, a derived service class with
 the public methods, an optional method-level EventManager, and recording listeners on the
 application / base service / service / method managers as the layout says (some registered
-twice).  Every listener appends (level, listener id, event) to one shared trace; the user
-function appends ('function', 'enter'|'return'|'raise'); protocol- and transport-level
-observers are recorded as well.  One request is sent through the chosen transport and the
+twice).  Every listener appends ('L', level, listener id, event) to one shared trace; the user
+function appends ('F', 'enter'|'return'|'raise'); protocol- and transport-level observers
+append ('O', source, event).  One request is sent through the chosen transport and the
 trace is checked by a specification automaton written from the property statement and the
 class docstrings of Application, Service, EventManager, ProtocolBase and WsgiApplication.
 
@@ -46,8 +46,9 @@ ASSUMPTIONS = [
     "no order is asserted between the managers of different levels, nor between inherited and "
     "own listeners of a service; a raising listener stops the remaining listeners of its event, "
     "so the other managers may see that one firing zero or one times",
-    "NullServer delivers a fault by raising it to the caller: it serialises nothing, so the "
-    "*_document/*_string events are required from it only for ostr=True on success; only the "
+    "NullServer delivers an error by raising it to the caller (any exception it raises counts "
+    "as the fault reply): it serialises no fault, so the *_document/*_string events are "
+    "required from it only for ostr=True on success; only the "
     "synchronous proxy (server.service) is driven -- the async proxy leaves closing to a Deferred",
     "an unserialisable return value is not sent through the bare ServerBase pipeline: "
     "ServerBase.get_out_string lets the exception out and recovery is the concrete transport's "
@@ -71,8 +72,6 @@ SOAP_ENV = "http://schemas.xmlsoap.org/soap/envelope/"
 EVENTS = ("method_context_created", "method_context_closed", "method_call",
           "method_return_object", "method_exception_object", "method_accept_document",
           "method_return_document", "method_exception_document", "method_return_string",
-          "method_exception_string")
-DOCSTR = ("method_return_document", "method_return_string", "method_exception_document",
           "method_exception_string")
 
 FAMILIES = ("xml", "soap11", "json", "msgpack", "yaml", "http")
@@ -279,7 +278,7 @@ class Env(object):
 
     # expected listener order per firing ----------------------------------------------
     def expected(self, level, ev):
-        """-> list of groups; each group is the listener ids in the order they must run"""
+        """-> list of groups (name, listener ids in the order they must run, raw registrations)"""
         def dedupe(l):
             out = []
             for x in l:
@@ -289,8 +288,9 @@ class Env(object):
         if level == "svc":
             inh = dedupe(self.reg["base"][ev])
             own = [x for x in dedupe(self.reg["svc"][ev]) if x not in inh]
-            return [("svc-inherited", inh), ("svc", own)]
-        return [(level, dedupe(self.reg[level][ev]))]
+            return [("svc-inherited", inh, list(self.reg["base"][ev])),
+                    ("svc", own, [x for x in self.reg["svc"][ev] if x not in inh])]
+        return [(level, dedupe(self.reg[level][ev]), list(self.reg[level][ev]))]
 
 
 def _protocols(fam):
@@ -435,7 +435,6 @@ def drive_case(E):
             R.detail = "status=%r body=%r" % (res.status, res.body[:200])
     else:
         from spyne.server.null import NullServer
-        from spyne.error import Fault
         srv = NullServer(E.app, ostr=(tr == "null_ostr"))
         try:
             ret = getattr(srv.service, method)(a, s)
@@ -443,11 +442,10 @@ def drive_case(E):
                 ret = b"".join(ret)
             R.fault = False
             R.detail = "returned %r" % (ret,)
-        except Fault as e:
+        except Exception as e:
+            # NullServer's error channel is `raise`: whatever it raises is the (error) reply
             R.fault = True
             R.detail = "raised %r" % (e,)
-        except Exception as e:
-            R.escaped = (e, "null")
     return R
 
 
@@ -468,8 +466,9 @@ def _blocks(trace):
     return tl
 
 
-def _match_group(obs, exp, raiser):
-    """obs: ids recorded for one group of one manager in one block; exp: required order.
+def _match_group(obs, exp, raiser, raw):
+    """obs: ids recorded for one group of one manager in one block; exp: required order;
+    raw: the registration list including repeated registrations.
     -> (number of firings, problem kind or None)"""
     if not obs:
         return 0, None
@@ -477,6 +476,11 @@ def _match_group(obs, exp, raiser):
         return 1, "unexpected"
     if raiser and "x" in exp:
         exp = exp[:exp.index("x") + 1]
+        raw = raw[:raw.index("x") + 1]
+    if raw != exp and obs == raw:
+        # one firing in which every registration ran, the repeated ones included (told apart
+        # from the event being fired twice, which [b, a, b, a] would otherwise also match)
+        return 1, "duplicate-ran-twice"
     n, r = divmod(len(obs), len(exp))
     if r == 0 and obs == exp * n:
         return n, None
@@ -543,12 +547,12 @@ class Oracle(object):
                 raiser = (ev == E.raise_event and l == rlevel)
                 ks = []
                 gi = 0
-                for gname, exp in E.expected(l, ev):
+                for gname, exp, raw in E.expected(l, ev):
                     gobs = [x for x in obs if x in exp]
                     gi += len(gobs)
                     if not exp:
                         continue
-                    k, problem = _match_group(gobs, exp, raiser)
+                    k, problem = _match_group(gobs, exp, raiser, raw)
                     ks.append((gname, k))
                     if problem:
                         self.fail("C14|listeners:%s|%s" % (problem, gname),
@@ -565,23 +569,32 @@ class Oracle(object):
                               "the service manager did (%r)" % (ev, which, obs))
                 views[l].extend([ev] * k)
         self.views = views
-        # inheritance when the subclass has no listeners of its own: nothing to compare the
-        # inherited group with inside a block, so compare with the call as a whole
-        if self.resolved and "svc" in levels and any(r[:2] == ("F", "enter") for r in E.trace):
+        # inheritance seen over the call as a whole: a request that was mapped to a method of
+        # the derived service always owes its service-level listeners some event (method_call,
+        # or method_exception_object), so inherited listeners that never ran were not inherited
+        if self.resolved and "svc" in levels:
             inh = E.expected("svc", "method_call")[0][1]
             if inh and not [r for r in E.trace if r[0] == "L" and r[1] == "svc" and r[2] in inh]:
                 self.fail("C14|listeners:missing|svc-inherited",
-                          "the user function of the derived service ran but the listeners "
-                          "registered on its base service class (%r) never did" % (inh,))
+                          "the derived service handled the call but the listeners registered "
+                          "on its base service class (%r) never ran" % (inh,))
                 if not [t for t in views["svc"] if t[:2] != "F:"]:
                     levels.remove("svc")
+        # the injected listener failure must have happened: if the event was fired but the
+        # raising listener did not run, its manager lost it -- nothing else can be concluded
+        if E.raise_event is not None and \
+                not [r for r in E.trace if r[0] == "L" and r[2] == "x"] and \
+                [it for it in tl if it[0] == "E" and it[1] == E.raise_event]:
+            where = "svc-inherited" if case["rlevel"] == "base" else rlevel
+            self.fail("C14|listeners:missing|%s" % where,
+                      "%s was fired but the listener registered for it at %s level never ran"
+                      % (E.raise_event, case["rlevel"]))
+            return self.fails
 
         if self.reply.escaped is not None:
             exc, stage = self.reply.escaped
             et, where = F.exc_origin(exc)
-            if case["fp"] == "unserialisable":
-                where = "serializer"      # the injected failure itself; its frame differs by family
-            tr = "null" if case["tr"].startswith("null") else case["tr"]
+            tr = case["tr"]
             self.fail("C14|escaped|%s|%s|%s|%s" % (self.fpname, tr, et, where),
                       "%r escaped from the transport at stage %s: the call has no reply, the "
                       "context is never closed" % (exc, stage))
@@ -837,7 +850,7 @@ def shards(tier):
     if tier == "quick":
         out += [{"kind": "hyp", "i": i, "n": 3000} for i in range(16)]
     else:
-        out += [{"kind": "hyp", "i": i, "n": 14000} for i in range(64)]
+        out += [{"kind": "hyp", "i": i, "n": 20000} for i in range(64)]
     return out
 
 
